@@ -25,6 +25,8 @@ def run(ctx):
                       "instance's value store or the CLASS-level Parameter, never from a per-instance Parameter copy (which keeps the default it was created with) -- shared with R13.g", floor=2)
     ctx.rule("R19.y", "Dynamic set model: generator state is (re)initialised only for a value that was actually stored -- never before the assignment is accepted (a refused assignment of a "
                       "generator already in use elsewhere would wipe its cached value and saved states), never on a reference", floor=1)
+    ctx.rule("R19.s", "per-object state is per object: no class body in param / numbergen binds a mutable container to an attribute that a method mutates in place through self unless the "
+                      "class's __init__ rebinds it (a class-level Time._pushed_state would make all clocks share one context stack)", floor=1)
     ctx.rule("R19.a", "every random generator's __call__ reseeds (super().__call__()) on all paths before it draws from self.random_generator; "
                       "RandomDistribution.__call__ reseeds under time_dependent; the seed is a function of (name-hash, time, global seed) only; "
                       "Hash.__call__ works on a copy of the digest", floor=9)
@@ -356,6 +358,8 @@ def run(ctx):
     from checks.shared import dynamic_cache_writers, time_fn_model
     dynamic_cache_writers(ctx, "R19.w")
     time_fn_model(ctx, "R19.t")
+    from checks.shared import no_shared_mutable_class_state
+    no_shared_mutable_class_state(ctx, "R19.s")
     from checks.c13 import value_reporters_agree
     value_reporters_agree(ctx, "R19.v")
     from checks.shared import dynamic_set_model
